@@ -119,6 +119,31 @@ fn history(req: &json::JsonValue) -> json::JsonValue {
                 match vm.execute_program_cranelift() { Ok(j) => (j != i, format!("after set_program: interpreter returns {i}, execute_program_cranelift returns {j}")), Err(e) => (false, format!("execute_program_cranelift: {e} (no stale code)")) }
             }
             "error-leaves-state-changed" => {
+                // scenario A: a refused set_program must not drop (or change) the compiled code of the program that stays loaded
+                let mut a = (false, String::new());
+                {
+                    let mut vm = rbpf::EbpfVmNoData::new(Some(p1)).unwrap(); vm.jit_compile().unwrap();
+                    let before = unsafe { vm.execute_program_jit() }.map_err(|e| e.to_string());
+                    let e = vm.set_program(bad).is_err();
+                    let after = unsafe { vm.execute_program_jit() }.map_err(|e| e.to_string());
+                    if e && before != after { a = (true, format!("refused set_program changed execute_program_jit from {before:?} to {after:?}")); }
+                }
+                #[cfg(feature = "cranelift")]
+                if !a.0 {
+                    let mut vm = rbpf::EbpfVmNoData::new(Some(p1)).unwrap(); vm.cranelift_compile().unwrap();
+                    let before = vm.execute_program_cranelift().map_err(|e| e.to_string());
+                    let e = vm.set_program(bad).is_err();
+                    let after = vm.execute_program_cranelift().map_err(|e| e.to_string());
+                    if e && before != after { a = (true, format!("refused set_program changed execute_program_cranelift from {before:?} to {after:?}")); }
+                }
+                if !a.0 {
+                    let mut vm = rbpf::EbpfVmNoData::new(Some(p1)).unwrap();
+                    let before = vm.execute_program().map_err(|e| e.to_string());
+                    let e = vm.set_program(bad).is_err();
+                    let after = vm.execute_program().map_err(|e| e.to_string());
+                    if e && before != after { a = (true, format!("refused set_program changed execute_program from {before:?} to {after:?}")); }
+                }
+                if a.0 { return a; }
                 // probe reads 8 bytes at offset 100 of the internal buffer: out of bounds while the buffer has 32 bytes
                 let probe: &'static [u8] = &[0x79, 0x10, 100, 0, 0, 0, 0, 0, 0x95, 0, 0, 0, 0, 0, 0, 0];
                 let mut vm = rbpf::EbpfVmFixedMbuff::new(Some(probe), 8, 24).unwrap();
@@ -136,8 +161,27 @@ fn history(req: &json::JsonValue) -> json::JsonValue {
               Ok((rep, d)) => if d == "unsupported" { json::object! { "status": "unsupported" } } else { json::object! { "status": "ok", "reproduced": rep, "detail": d } } }
 }
 
+fn assemble(req: &json::JsonValue) -> json::JsonValue {
+    let text = req["text"].as_str().unwrap_or("").to_string();
+    match panic::catch_unwind(|| rbpf::assembler::assemble(&text)) {
+        Err(p) => json::object! { "status": "panic", "msg": pmsg(p) },
+        Ok(Err(e)) => json::object! { "status": "err", "msg": e },
+        Ok(Ok(b)) => json::object! { "status": "ok", "bytes": b.iter().map(|x| format!("{:02x}", x)).collect::<String>() },
+    }
+}
+
+fn disassemble(req: &json::JsonValue) -> json::JsonValue {
+    let prog = unhex(req["prog"].as_str().unwrap_or(""));
+    match panic::catch_unwind(|| rbpf::disassembler::to_insn_vec(&prog)) {
+        Err(p) => json::object! { "status": "panic", "msg": pmsg(p) },
+        Ok(v) => json::object! { "status": "ok", "insns": json::JsonValue::Array(v.iter().map(|i| json::object! { "opc": i.opc, "name": i.name.as_str(), "desc": i.desc.as_str(), "dst": i.dst, "src": i.src, "off": i.off, "imm": format!("{}", i.imm) }).collect()) },
+    }
+}
+
 pub fn dispatch(op: &str, req: &json::JsonValue) -> json::JsonValue {
     match op {
+        "assemble" => assemble(req),
+        "disassemble" => disassemble(req),
         "history" => history(req),
         "call_helper" => call_helper(req),
         "load" => load(req),
